@@ -4,7 +4,7 @@ from typing import Any, cast
 from guppylang_internals.definition.ty import TypeDef
 from guppylang_internals.tys.arg import TypeArg
 from guppylang_internals.tys.common import Visitor
-from guppylang_internals.tys.ty import OpaqueType, StructType, Type
+from guppylang_internals.tys.ty import BoundTypeVar, OpaqueType, StructType, Type
 
 
 @functools.cache
@@ -42,6 +42,14 @@ class QubitFinder(Visitor):
     @visit.register
     def _visit_OpaqueType(self, ty: OpaqueType) -> bool:
         if is_qubit_ty(ty):
+            raise self.FoundFlag
+        return False
+
+    @visit.register
+    def _visit_BoundTypeVar(self, ty: BoundTypeVar) -> bool:
+        # A type variable may be instantiated with a type that holds qubits, unless it
+        # is copyable
+        if not ty.copyable:
             raise self.FoundFlag
         return False
 
